@@ -131,6 +131,9 @@ class Repo:
                     tree = ast.parse(src, filename=rel)
                 except SyntaxError as e:
                     raise AnalysisError(f"{rel}: does not parse: {e}")
+                if not os.environ.get("VERIF_NO_CANON"):
+                    from .canon import canonicalise
+                    self.canon_rewrites = getattr(self, "canon_rewrites", 0) + canonicalise(tree)
                 modrel = os.path.relpath(path, base)[:-3].replace(os.sep, ".")
                 is_pkg = fn == "__init__.py"
                 if is_pkg:
